@@ -8,6 +8,7 @@ import ModVerif.Model.Tile
 import ModVerif.Proofs.GoRtLemmasTile
 import ModVerif.Proofs.TieFnTlogInt
 import ModVerif.Proofs.TileAuthArith
+import ModVerif.Proofs.TileAuthTile
 namespace ModVerif.TieFnTile
 open ModVerif ModVerif.GoRt ModVerif.GoRtTile
 
@@ -104,5 +105,107 @@ theorem tileParent_eq (t : Tile.Tile) (k n : Nat) (hd : t.data = false)
         chk64_natCast (show M - AP < 2 ^ 63 by omega), mbind_ok, mpure]
   · have c1' : ¬ (((AP + P : Nat) : Int) ≥ (M : Int)) := by omega
     simp only [c1, c1', decide_false, Bool.false_eq_true, ↓reduceIte, mpure]
+
+/-! ### tileForIndex -/
+
+/-- the coordinates of a position `x` describe a subtree that ends at or before record `x + 1` -/
+theorem split_bound (x l k : Nat) (hx : x < 2 ^ 63) (hs : Tlog.splitStoredHashIndex x = .ok (l, k)) :
+    (k + 1) * 2 ^ l ≤ x + 1 := by
+  have h1 := TlogStore.storedHashIndex_split x l k hx hs
+  rw [Tlog.storedHashIndex_eq] at h1
+  have h2 := TlogStore.le_S ((k + 1) * 2 ^ l - 1)
+  omega
+
+/-- the model's answer in the result type of the generated `tileForIndex` (byte offsets = hash offsets × HashSize);
+    a model error (only `h = 0`: division by zero) is a panic -/
+def tfiOut : Except Tlog.Err (Tile.Tile × Nat × Nat) → M (GTile × Int × Int)
+  | .ok (t, s, e) => .ok (toGen t, ((32 * s : Nat) : Int), ((32 * e : Nat) : Int))
+  | .error _ => .error .panic
+
+/-- `tileForIndex(h, x)` for `h ≥ 0`, `0 ≤ x ≤ MaxInt64 - 1`, and `h ≤ 57` or `x < 2^57` (otherwise the byte offsets
+    `… * HashSize` overflow int64: they are at most `2^h * 32` and at most `(x + 1) * 32`). -/
+theorem tileForIndex_eq (fuel h x : Nat) (hx : x + 1 < 2 ^ 63) (hh : h < 2 ^ 63) (hr : h ≤ 57 ∨ x < 2 ^ 57) (hf : 64 ≤ fuel) :
+    Generated.Tile.tileForIndex fuel (h : Int) (x : Int) = tfiOut (Tile.tileForIndex h x) := by
+  obtain ⟨lv, k, hs⟩ := TlogStore.split_total x (by omega)
+  have hb := split_bound x lv k (by omega) hs
+  have hsplit := TieFnTlogInt.SplitStoredHashIndex_eq fuel x hx hf
+  rw [hs] at hsplit
+  simp only [TieFnTlogInt.splitOut] at hsplit
+  by_cases h0 : h = 0
+  · subst h0
+    simp only [Generated.Tile.tileForIndex, hsplit, mbind_ok, Int.natCast_zero, quo_zero, mbind_error]
+    simp [Tile.tileForIndex, tfiOut]
+  · have hpos : 0 < h := by omega
+    have hcl := TileAuth.tileForIndex_eq h x lv k hpos hs
+    have hmod : Tile.tileForIndex h x = .ok
+        ({ h := h, l := lv / h, n := (k <<< (lv - lv / h * h)) >>> h,
+           w := (k - (((k <<< (lv - lv / h * h)) >>> h) <<< h) >>> (lv - lv / h * h) + 1) <<< (lv - lv / h * h) },
+          (k - (((k <<< (lv - lv / h * h)) >>> h) <<< h) >>> (lv - lv / h * h)) <<< (lv - lv / h * h),
+          (k - (((k <<< (lv - lv / h * h)) >>> h) <<< h) >>> (lv - lv / h * h) + 1) <<< (lv - lv / h * h)) := by
+      unfold Tile.tileForIndex
+      have hne : (h == 0) = false := by simp; omega
+      simp only [hne, Bool.false_eq_true, ↓reduceIte, hs, bind, Except.bind, pure, Except.pure]
+    rw [hmod] at hcl
+    simp only [Except.ok.injEq, Prod.mk.injEq, Tile.Tile.mk.injEq, true_and, and_true] at hcl
+    obtain ⟨⟨hNeq, hWeq⟩, hSeq, _⟩ := hcl
+    rw [hmod]
+    clear hmod
+    simp only [tfiOut, toGen, Bool.false_eq_true, ↓reduceIte, Nat.shiftLeft_eq] at hNeq hWeq hSeq ⊢
+    -- bounds
+    have hts := TileAuth.ts_le h lv k hpos
+    simp only [TileAuth.ts] at hts
+    have hrlv : lv - lv / h * h ≤ lv := Nat.sub_le _ _
+    have hmodr : lv - lv / h * h = lv % h := by
+      have := Nat.div_add_mod lv h
+      rw [Nat.mul_comm] at this
+      omega
+    have hLh : lv / h * h ≤ lv := by rw [Nat.mul_comm]; exact Nat.mul_div_le lv h
+    have hk2 : k * 2 ^ lv < 2 ^ 63 := by
+      rw [Nat.add_mul] at hb; omega
+    have hlv63 : lv < 63 := by
+      apply Nat.lt_of_not_le; intro hc
+      have : 2 ^ 63 ≤ 2 ^ lv := Nat.pow_le_pow_right (by omega) hc
+      have : 1 * 2 ^ lv ≤ (k + 1) * 2 ^ lv := Nat.mul_le_mul_right _ (by omega)
+      omega
+    generalize hR : lv - lv / h * h = r at *
+    have hpr : 2 ^ r ≤ 2 ^ lv := Nat.pow_le_pow_right (by omega) hrlv
+    have hkr : k * 2 ^ r ≤ k * 2 ^ lv := Nat.mul_le_mul_left _ hpr
+    have hk1r : (k + 1) * 2 ^ r ≤ (k + 1) * 2 ^ lv := Nat.mul_le_mul_left _ hpr
+    generalize hA : k * 2 ^ r = A at *
+    generalize hNN : A >>> h = NN at *
+    have hNNle : NN * 2 ^ h ≤ A := by
+      rw [← hNN, Nat.shiftRight_eq_div_pow]; exact Nat.div_mul_le_self _ _
+    generalize hB : NN * 2 ^ h = B at *
+    have hCle : B >>> r ≤ k := by
+      rw [Nat.shiftRight_eq_div_pow]
+      have : B / 2 ^ r ≤ A / 2 ^ r := Nat.div_le_div_right hNNle
+      rw [← hA, Nat.mul_div_cancel _ (Nat.two_pow_pos r)] at this
+      exact this
+    generalize hC : B >>> r = C at *
+    have hWle : (k - C + 1) * 2 ^ r ≤ (k + 1) * 2 ^ r := Nat.mul_le_mul_right _ (by omega)
+    have hSle : (k - C) * 2 ^ r ≤ (k - C + 1) * 2 ^ r := Nat.mul_le_mul_right _ (by omega)
+    generalize hW : (k - C + 1) * 2 ^ r = W at *
+    generalize hS : (k - C) * 2 ^ r = S at *
+    have hW32 : 32 * W < 2 ^ 63 := by
+      rcases hr with hr | hr
+      · have : 2 ^ h ≤ 2 ^ 57 := Nat.pow_le_pow_right (by omega) hr
+        rw [hWeq, Nat.add_mul, Nat.one_mul]
+        omega
+      · omega
+    have hk63 : k + 1 < 2 ^ 63 := by
+      have := Nat.le_mul_of_pos_right (k + 1) (Nat.two_pow_pos lv); omega
+    have e1 : ((lv / h : Nat) : Int) * (h : Int) = ((lv / h * h : Nat) : Int) := by simp
+    have e2 : (lv : Int) - ((lv / h * h : Nat) : Int) = ((lv - lv / h * h : Nat) : Int) := by omega
+    have e3 : (k : Int) - (C : Int) = ((k - C : Nat) : Int) := by omega
+    have e4 : ((k - C : Nat) : Int) + 1 = ((k - C + 1 : Nat) : Int) := by omega
+    have e5 : (W : Int) * 32 = ((32 * W : Nat) : Int) := by omega
+    have e6 : (S : Int) * 32 = ((32 * S : Nat) : Int) := by omega
+    simp only [Generated.Tile.tileForIndex, hsplit, mbind_ok, quo_natCast lv h h0, e1,
+      chk64_natCast (show lv / h * h < 2 ^ 63 by omega), e2, hR, chk64_natCast (show r < 2 ^ 63 by omega),
+      toU64_natCast (show r < 2 ^ 64 by omega), shl_natCast, hA, chk64_natCast (show A < 2 ^ 63 by omega),
+      toU64_natCast (show h < 2 ^ 64 by omega), shr_natCast, hNN, hB, chk64_natCast (show B < 2 ^ 63 by omega), hC, e3,
+      chk64_natCast (show k - C < 2 ^ 63 by omega), e4, chk64_natCast (show k - C + 1 < 2 ^ 63 by omega), hW,
+      chk64_natCast (show W < 2 ^ 63 by omega), hS, chk64_natCast (show S < 2 ^ 63 by omega), e5, e6,
+      chk64_natCast hW32, chk64_natCast (show 32 * S < 2 ^ 63 by omega), mpure]
 
 end ModVerif.TieFnTile
